@@ -70,6 +70,15 @@ def build(fk, via, v, tmp, idx):
             raise TypeError("the exec/eval helpers take source text")
         getattr(p, via)(v, run_first=(len(v) % 2 == 0))
         return p.dumps(), "builtin_arg"
+    elif via in ("insert_python_framed", "insert_python_after_refusal"):
+        import pickle as _p
+        p = fk.Pickled.load(_p.dumps({"k": [1, 2]}, 4 + idx % 2))        # a framed target
+        if via == "insert_python_after_refusal":
+            try:                                     # the same object saw a refused attempt before (the caller went on)
+                p.insert_python("ok", object(), module="verif_sink", attr="recv")
+            except Exception:  # noqa: BLE001
+                pass
+        p.insert_python(v, module="verif_sink", attr="recv", run_first=bool(idx % 3))
     elif via == "append_python":
         p.append_python(v, module="verif_sink", attr="recv", pop_result=True)
     elif via == "constant_args":
@@ -166,7 +175,8 @@ def run(ctx):
                 if tag == "CELL":
                     cells[js["cls"]] = js
     recs, items = [], []
-    vias = ["insert_python", "insert_python_two", "append_python", "constant_args", "insert_python_exec", "insert_python_eval"]
+    vias = ["insert_python", "insert_python_two", "append_python", "constant_args", "insert_python_exec", "insert_python_eval",
+            "insert_python_framed", "insert_python_after_refusal"]
     passes = [(cls, v) for cls, reps in REPS.items() for v in reps]
     for cls, v in passes + passes[::-1]:
         if True:
